@@ -9,3 +9,9 @@ import Urandom.Props.C13
 import Urandom.Props.C02
 import Urandom.Props.C03
 import Urandom.Props.C08
+import Urandom.Props.C09
+import Urandom.Props.C10
+import Urandom.Props.C17
+import Urandom.Props.C18
+import Urandom.Props.C19
+import Urandom.Props.C20
